@@ -425,9 +425,12 @@ def o_c18_post(w, args):
     g = toks[1]; n = int(toks[3])
     if g == 'ring' and n <= 2:
         return None if out == 'err ValueError' else '[ring/small-n] ring(%d) gave %s' % (n, out)
+    before = st['rec']
+    if out == 'err KeyError' and g == 'simplex' and toks[4] != '-' and toks[4] in before:
+        return None          # the requested name was already in use
     if out.startswith('err'):
         return '[%s/raises] `%s` gave %s' % (g, line, out)
-    before = st['rec']; after = _record(c)
+    after = _record(c)
     for nme, r in before.items():
         if after.get(nme) != r:
             return '[%s/modifies-target] pre-existing simplex %s: %r -> %r' % (g, nme, r, after.get(nme))
